@@ -180,6 +180,13 @@ def _samples():
                                                compute_jensen_shannon_divergence(m, t, p)), [nd(), md(), {"sigma": 0.7, "epsilon": 1e-6}])
     S["Wavefunction.reads"] = lambda: (lambda w: (w.get_probabilities().tolist(), w.get_outcome_probs(), w.amplitudes.tolist(), flip_wavefunction(w).amplitudes.tolist()),
                                        [Wavefunction(np.array([0.5, 0.5j, -0.5, 0.5], dtype=complex))])
+    # amplitudes typed with 6-7 significant digits (norm off by 1e-7, accepted by the constructor), a caller-owned array, a wide state
+    S["Wavefunction.reads (rounded amplitudes)"] = lambda: (lambda w: (w.get_probabilities().tolist(), w.get_outcome_probs(), w.amplitudes.tolist()),
+                                                            [Wavefunction(np.array([0.707107, 0.707107], dtype=complex))])
+    S["Wavefunction.reads (caller's array)"] = lambda: (lambda a: (lambda w: (w.get_probabilities().tolist(), w.get_outcome_probs()))(Wavefunction(a)),
+                                                        [np.array([0.5000001, 0.4999999j, -0.5, 0.5], dtype=complex)])
+    S["Wavefunction.reads (10 qubits, rounded)"] = lambda: (lambda w: (float(np.sum(w.get_probabilities())), len(w.get_outcome_probs()), w.amplitudes[:4].tolist()),
+                                                            [Wavefunction(np.round(np.full(1024, 1 / 32.0) * (1 + 1e-7 * np.cos(np.arange(1024))), 9).astype(complex))])
     S["Wavefunction.bind"] = lambda: (lambda w, m: w.bind(m).amplitudes.tolist(), [Wavefunction([sympy.Symbol("a"), 0.6, 0.0, 0.0]), {sympy.Symbol("a"): 0.8}])
     S["sample_from_wavefunction"] = lambda: (lambda w: sample_from_wavefunction(w, 5, 3), [Wavefunction(np.array([0.5, 0.5j, -0.5, 0.5], dtype=complex))])
     S["represent distribution"] = lambda: (lambda d: len(Measurements.get_measurements_representing_distribution(d, 7).bitstrings), [MeasurementOutcomeDistribution({"00": 0.3, "11": 0.7})])
